@@ -683,3 +683,154 @@ def run_stalebuf(prog, ctx=None):
                    "" if not bad else "`%s` was computed from %s->_buf before %s() may have replaced that buffer and is used in `%s` without being assigned again: it points into the old buffer (shared with other handles, or freed)" % (
                        bad[0][0], akey.lstrip("&"), gname, norm(show(bad[0][1][0], f))[:80]))
     return res
+
+
+CXX_MUTATORS = ("set_length", "append", "insert", "skip", "trim", "move", "copy")
+
+
+def run_cxxcow(prog, ctx=None):
+    """CXXCOW: in the C++ array classes a content object obtained from a handle (`d = _buf.instance()`) is changed in place
+    (set_length / append / insert / skip / trim) only where `d->shared()` answered false on that path, or d was created
+    or detached in this function.  Typestate with trace partitioning on the local: unknown / private; a condition that
+    can leave the shared test unevaluated (`traits && shared` for `traits || shared`) keeps it unknown."""
+    res = Result("CXXCOW")
+    from .ival import Analysis
+    files = set(ctx.get("cxx_files") or ctx.get("files") or []) if ctx else set()
+    for f in sorted((g for g in prog.functions.values() if not g.nocfg and g.file in files), key=lambda g: (g.file, g.line, g.qn)):
+        loc = {}
+        for b, i, n in f.walk_all():
+            pairs = []
+            if n.get("k") == "bin" and n.get("op") == "=":
+                l = strip(n["a"], lvalue_to_rvalue=False)
+                if l.get("k") == "ref" and l["d"].get("dk") == "local":
+                    pairs.append((l["d"]["id"], l["d"]["n"], n["b"]))
+            elif n.get("k") == "decl":
+                pairs += [(v["id"], v["n"], v["init"]) for v in n["vars"] if v.get("init") is not None]
+            for vid, vn, rhs in pairs:
+                for m in walk(rhs):
+                    if m.get("k") == "call" and m.get("mcall") and (m.get("fn") or {}).get("n") == "instance":
+                        loc[vid] = vn
+        if not loc:
+            continue
+        sites = []
+        for b, i, e in f.elements():
+            if e.get("k") == "call" and e.get("mcall") and (e.get("fn") or {}).get("n") in CXX_MUTATORS and e.get("obj") is not None:
+                o = strip(e["obj"], all_casts=True)
+                if o.get("k") == "ref" and o["d"].get("id") in loc:
+                    sites.append((b, i, e, o["d"]["id"]))
+        if not sites:
+            continue
+        for vid in sorted({s[3] for s in sites}):
+            PK = Analysis.PK
+
+            def hook(an, blk, idx, el, st, vid=vid):
+                for n in walk_own(el):
+                    rhs = None
+                    if n.get("k") == "bin" and n.get("op") == "=":
+                        l = strip(n["a"], lvalue_to_rvalue=False)
+                        if l.get("k") == "ref" and l["d"].get("id") == vid:
+                            rhs = n["b"]
+                    elif n.get("k") == "decl":
+                        for v in n["vars"]:
+                            if v["id"] == vid and v.get("init") is not None:
+                                rhs = v["init"]
+                    if rhs is not None:
+                        fresh = any(m.get("k") == "call" and ((m.get("fn") or {}).get("n") in ("create", "detach") or callee_name(m) in ("_mpt_buffer_alloc",)) for m in walk(rhs))
+                        if cval(rhs) == 0:
+                            st[PK] = "P"          # no object: nothing to change
+                        else:
+                            st[PK] = "P" if fresh else "?"
+
+            def edge_hook(an, blk, cond, truth, st, vid=vid):
+                c = strip(cond, all_casts=True)
+                neg = False
+                while c.get("k") == "un" and c.get("op") == "!":
+                    neg = not neg
+                    c = strip(c["e"], all_casts=True)
+                if c.get("k") == "call" and c.get("mcall") and (c.get("fn") or {}).get("n") == "shared" and c.get("obj") is not None:
+                    o = strip(c["obj"], all_casts=True)
+                    if o.get("k") == "ref" and o["d"].get("id") == vid and (truth == neg):
+                        st[PK] = "P"
+                if c.get("k") == "ref" and c["d"].get("id") == vid and (truth == neg):
+                    st[PK] = "P"                  # null: no object
+
+            an = Analysis(prog, f, hook=hook, edge_hook=edge_hook)
+            st0 = an.entry_state()
+            st0[PK] = "?"
+            an.run(state=st0)
+            for b, i, e, v2 in sites:
+                if v2 != vid:
+                    continue
+                parts = an.pre_parts.get((b.id, i), {})
+                bad = "?" in parts or "*" in parts
+                res.ob("%s:%s->%s at line %s" % (f.qn, loc[vid], e["fn"]["n"], e.get("l", f.line)), not bad, f, e.get("l", f.line) or f.line,
+                       "" if not bad else "`%s` changes the content object %s got from the handle on a path where %s->shared() was not known false and %s was not created here: other handles of the same buffer see the change" % (
+                           norm(show(e, f))[:70], loc[vid], loc[vid], loc[vid]))
+    return res
+
+
+def run_detachfail(prog, ctx=None):
+    """DETACHFAIL: a function that asks a buffer for a private copy (`n = c->detach(size)`) and does not get one reports
+    that: from the null edge of the test of n no `return true` (bool), non-null pointer or non-negative status is reachable
+    unless another detach/create call is made on the way.  A caller that is told the handle is private goes on to change
+    the shared buffer in place."""
+    res = Result("DETACHFAIL")
+    files = set(ctx.get("cxx_files") or ctx.get("files") or []) if ctx else set()
+    seen = set()
+    for f in sorted((g for g in prog.functions.values() if not g.nocfg and (not files or g.file in files)), key=lambda g: (g.file, g.line, g.qn)):
+        T = f.T(f.ret)
+        if T.get("k") not in ("bool", "int", "ptr"):
+            continue
+        for bid, blk in sorted(f.blocks.items()):
+            if not (blk.term and blk.term.get("cond") is not None and len(blk.succ) == 2):
+                continue
+            c = strip(blk.term["cond"], all_casts=True)
+            neg = False
+            while c.get("k") == "un" and c.get("op") == "!":
+                neg = not neg
+                c = strip(c["e"], all_casts=True)
+            call = None
+            if c.get("k") == "bin" and c.get("op") == "=":
+                r = strip(c["b"], all_casts=True)
+                if r.get("k") == "call":
+                    call = r
+            elif c.get("k") == "call":
+                call = c
+            if call is None or not call.get("args"):
+                continue
+            nm = (call.get("fn") or {}).get("n") if call.get("mcall") else None
+            if nm is None and call.get("callee") is not None:
+                ce = strip(call["callee"], all_casts=True)
+                nm = ce.get("f") if ce.get("k") == "mem" else None
+            if nm != "detach":
+                continue
+            key = (f.file, call.get("l"))
+            if key in seen:
+                continue
+            seen.add(key)
+            failed = blk.succ[0 if neg else 1]
+            if failed is None:
+                continue
+            again = set()
+            for b2, i2, e2 in f.elements():
+                if e2.get("k") == "call" and e2 is not call:
+                    n2 = (e2.get("fn") or {}).get("n") or ""
+                    if n2 in ("detach", "create", "create_unique") or (callee_name(e2) or "").startswith("_mpt_buffer_alloc"):
+                        again.add(b2.id)
+            reach = ({failed} | set(f.reachable_from(failed, avoid=again))) - again
+            bad = None
+            for b2, i2, e2 in f.elements():
+                if b2.id in reach and e2.get("k") == "ret" and e2.get("e") is not None:
+                    v = cval(e2["e"])
+                    if T.get("k") == "bool" and v == 1:
+                        bad = e2
+                    if T.get("k") == "int" and v is not None and v > 0 and T.get("s") in ("bool", "_Bool"):
+                        bad = e2
+            if T.get("k") == "int" and T.get("s") not in ("bool", "_Bool"):
+                continue
+            if T.get("k") == "ptr":
+                continue
+            res.ob("%s:%s:detach at line %s" % (f.file, f.name, call.get("l")), bad is None, f, (bad.get("l") if bad else call.get("l")) or f.line,
+                   "" if bad is None else "`%s` did not deliver a private copy, yet %s() answers `%s`: the caller takes the handle for private and changes the shared buffer in place" % (
+                       norm(show(call, f))[:60], f.name, norm(show(bad, f))))
+    return res
